@@ -215,3 +215,44 @@ func vChunksModel(r *Reader, pos int64, limit int64) []requested {
 	}
 	return c
 }
+
+// H_C10_race: the real Torrent.Request (whose completeness pre-check runs outside the event loop)
+// racing with the real event loop and with the piece being verified and announced (Finalise +
+// Have) in a third goroutine; every schedule with <= `preempt` pre-emptions: a consumer that was
+// handed a channel for a piece that does get verified is woken (or the torrent dies) - it is
+// never left waiting for ever.
+func H_C10_race() {
+	t := vLiveTorrent()
+	d := vBytes("d", 16384)
+	vAssume(len(d) == 16384)
+	h := hash.Hash(vBytes("h", 20))
+	vAssume(len(h) == 20)
+	t.Pieces.AddData(0, 0, d, 1)
+	fin := make(chan bool, 1)
+	go func() {
+		t.run(vLiveContext()) // never cancelled: a stuck consumer shows as a deadlock
+		close(t.Deleted)
+	}()
+	go func() {
+		done, _, _ := t.Pieces.Finalise(0, h)
+		if done {
+			t.Have(0, true)
+		}
+		fin <- done
+	}()
+	_, ch, err := t.Request(0, 1, true, true)
+	verified := <-fin
+	if err != nil || ch == nil {
+		vReach("no-wait")
+		return
+	}
+	if !verified {
+		vReach("not-verified")
+		return
+	}
+	select {
+	case <-ch:
+		vReach("woken")
+	case <-t.Done:
+	}
+}
